@@ -132,6 +132,36 @@ func (w *World) c20Funcs(r *Report) (position, resolve, initFn, str *ssa.Functio
 	return
 }
 
+// clampOfParam: v is the parameter, or the parameter clamped to the length of the receiver's buffer
+// (`if end > len(f.Buffer) { end = len(f.Buffer) }`): for positions within the buffer — the domain of the property — that
+// is the parameter itself.
+func clampOfParam(v, param ssa.Value, recv *ssa.Parameter) bool {
+	v = stripConv(v)
+	if v == param {
+		return true
+	}
+	phi, ok := v.(*ssa.Phi)
+	if !ok {
+		return false
+	}
+	hasParam := false
+	for _, o := range phiOrigins(phi) {
+		o = stripConv(o)
+		if o == param {
+			hasParam = true
+			continue
+		}
+		c, isCall := o.(*ssa.Call)
+		if !isCall || !isLenCall(c) {
+			return false
+		}
+		if f, ok := fieldLoadOf(c.Call.Args[0], recv); !ok || f != "Buffer" {
+			return false
+		}
+	}
+	return hasParam
+}
+
 func ruleC20R1(w *World, r *Report) {
 	const rule = "C20/R1"
 	r.rule(rule, "(*File).Position returns a Position whose Pos/End are its parameters, Line/Column the two results of ResolvePos(pos), EndLine/EndColumn those of ResolvePos(end), FilePath the file's", 7)
@@ -160,16 +190,26 @@ func ruleC20R1(w *World, r *Report) {
 				}
 				return c.Call.Args[1], ex.Index, true
 			}
+			// a parameter, or the parameter clamped to the length of the buffer (`if end > len(f.Buffer) { end = len(f.Buffer) }`):
+			// for positions within the buffer — the domain of the property — that is the parameter
+			clampOf := func(v, param ssa.Value) bool { return clampOfParam(v, param, recv) }
+			posV, endV := ssa.Value(pos), ssa.Value(end)
+			if v := fields["Pos"]; v != nil && clampOf(v, pos) {
+				posV = stripConv(v)
+			}
+			if v := fields["End"]; v != nil && clampOf(v, end) {
+				endV = stripConv(v)
+			}
 			want := []struct {
 				field string
 				arg   ssa.Value
 				idx   int
 				what  string
-			}{{"Line", pos, 0, "line of ResolvePos(pos)"}, {"Column", pos, 1, "column of ResolvePos(pos)"}, {"EndLine", end, 0, "line of ResolvePos(end)"}, {"EndColumn", end, 1, "column of ResolvePos(end)"}}
+			}{{"Line", posV, 0, "line of ResolvePos(pos)"}, {"Column", posV, 1, "column of ResolvePos(pos)"}, {"EndLine", endV, 0, "line of ResolvePos(end)"}, {"EndColumn", endV, 1, "column of ResolvePos(end)"}}
 			for _, wt := range want {
 				construct := "Position." + wt.field
 				a, i, ok := resOf(fields[wt.field])
-				if ok && a == wt.arg && i == wt.idx {
+				if ok && stripConv(a) == wt.arg && i == wt.idx {
 					r.ok(rule, construct, w.pos(al.Pos()), wt.what)
 				} else {
 					r.bad(rule, construct, w.pos(al.Pos()), "is not the "+wt.what+": the line/column reported for an error belong to another position than its Pos/End")
@@ -178,9 +218,9 @@ func ruleC20R1(w *World, r *Report) {
 			for _, wt := range []struct {
 				field string
 				v     ssa.Value
-			}{{"Pos", pos}, {"End", end}} {
-				if stripConv(fields[wt.field]) == wt.v {
-					r.ok(rule, "Position."+wt.field, w.pos(al.Pos()), "the parameter")
+			}{{"Pos", posV}, {"End", endV}} {
+				if fields[wt.field] != nil && stripConv(fields[wt.field]) == wt.v {
+					r.ok(rule, "Position."+wt.field, w.pos(al.Pos()), "the parameter (or the parameter clamped to the length of the buffer)")
 				} else {
 					r.bad(rule, "Position."+wt.field, w.pos(al.Pos()), "is not the "+strings.ToLower(wt.field)+" parameter of File.Position")
 				}
@@ -552,7 +592,7 @@ func ruleC20R5(w *World, r *Report) {
 			return false
 		}
 		c, ok := ex.Tuple.(*ssa.Call)
-		return ok && c.Call.StaticCallee() == resolve && len(c.Call.Args) == 2 && c.Call.Args[1] == arg
+		return ok && c.Call.StaticCallee() == resolve && len(c.Call.Args) == 2 && (c.Call.Args[1] == arg || clampOfParam(c.Call.Args[1], arg, recv))
 	}
 	// the line index used at a place of Position itself: the resolved line, or a counter from it to the end line
 	indexProblem := func(lb ssa.Value) string {
